@@ -48,6 +48,7 @@ type delta struct {
 	Next     int              `json:"x"`           // all cases with index < Next are accounted for
 	Done     bool             `json:"d,omitempty"` // enumeration of the unit exhausted
 	Stop     bool             `json:"s,omitempty"` // limit reached
+	BatchEnd int              `json:"b,omitempty"` // the worker is about to run cases [Next, BatchEnd)
 	At       bool             `json:"a,omitempty"` // careful mode: about to run case Next (In/Name set)
 	In       []byte           `json:"i,omitempty"`
 	Name     string           `json:"n,omitempty"`
@@ -84,9 +85,9 @@ func workerMain(thorough bool) {
 	_ = syscall.Setrlimit(syscall.RLIMIT_AS, &lim)
 	debug.SetMaxStack(64 << 20)
 	debug.SetGCPercent(200)
-	runtime.GOMAXPROCS(2)
+	runtime.GOMAXPROCS(1)
 
-	reg := buildRegistry()
+	reg := buildRegistry(thorough)
 	if len(os.Args) > 3 && registryDigest(reg) != os.Args[3] {
 		fmt.Fprintln(os.Stderr, "fatal error: c07 worker registry differs from the parent's (non-deterministic seed?)")
 		os.Exit(6)
@@ -166,11 +167,12 @@ func (w *wstate) runUnit(un unit, u, from, limit int, careful, thorough bool) {
 				w.flush(false)
 			}
 		} else {
+			// announce the batch (and hand over everything accounted so far) before running it: if
+			// this process dies, the parent knows exactly which index range to re-run case by case
+			w.d.BatchEnd = batch[len(batch)-1].idx + 1
+			w.flush(false)
 			w.exec(ep, batch, &bsize)
 			w.d.Next = batch[len(batch)-1].idx + 1
-			if time.Since(w.lastOut) > 500*time.Millisecond {
-				w.flush(false)
-			}
 		}
 		batch = batch[:0]
 	}
